@@ -32,6 +32,7 @@ RULE = ('LEG: every legacy entry point and call variant (get_token with include_
         'both as the arguments parser run at the position after the macro and as a whole-document parse; optional_arg_no_space / '
         'args_math_mode variants; oracle on the implementation: legacy tuple == (node, node.pos, node.len / reader position) of the '
         'pylatexenc-3 parser object run directly, failure <-> failure or the documented empty result, no internal exception; '
+        'histories: 1-3 earlier legacy calls with other parsing states / stop conditions on the SAME walker before the compared call; '
         'correspondence: both halves against the model')
 TRUSTED = ['parser model Pylx.Parse (C01/C05/C06 correspondence) and tokenizer model (C11)',
            'closed world of argument parsers; parsing-state deltas returned by parsers are identity for these specifications',
@@ -279,6 +280,35 @@ def first_closing_brace(w, ps, pos):
     except LatexWalkerError:
         return None
 
+def legacy_call(w, ps, pos, call):
+    """one legacy call on the walker, result ignored (used for the earlier life of a shared walker)"""
+    k = call[0]
+    if k == 'tok':
+        inc, bac, envs = [tuple(p) for p in call[1]], call[2], call[3]
+        kw = {'include_brace_chars': inc or None, 'environments': envs, 'parsing_state': ps}
+        if bac is not None:
+            kw['brackets_are_chars'] = bac
+        return attempt(lambda: w.get_token(pos, **kw))
+    if k == 'nodes':
+        br, ee, mm, mx = call[1:5]
+        kw = {'pos': pos, 'parsing_state': ps}
+        if br is not None:
+            kw['stop_upon_closing_brace'] = br[1] if br[0] == 'c' else (br[1], br[2])
+        if ee is not None: kw['stop_upon_end_environment'] = ee
+        if mm is not None: kw['stop_upon_closing_mathmode'] = mm
+        if mx is not None: kw['read_max_nodes'] = mx
+        return attempt(lambda: w.get_latex_nodes(**kw))
+    if k == 'expr':
+        return attempt(lambda: w.get_latex_expression(pos, strict_braces=call[1], parsing_state=ps))
+    if k == 'group':
+        b = call[1]
+        return attempt(lambda: w.get_latex_braced_group(pos, brace_type=(b[1] if b[0] == 'c' else (b[1], b[2])), parsing_state=ps))
+    if k == 'env':
+        return attempt(lambda: w.get_latex_environment(pos, environmentname=call[1], parsing_state=ps))
+    if k == 'opt':
+        return attempt(lambda: w.get_latex_maybe_optional_arg(pos, parsing_state=ps))
+    return None
+
 def run_impl(c):
     from pylatexenc import latexwalker
     from pylatexenc.latexnodes import parsers, nodes as N
@@ -290,6 +320,11 @@ def run_impl(c):
     if k == 'doc':
         return run_doc(cc)
     w = parsecase.make_walker(cc)
+    for pr in c.get('pre') or []:
+        # earlier legacy calls on the SAME walker (other parsing states, other stop conditions): a walker carries no state
+        # from one call to the next, so the compared call below must come out as on a fresh walker (which is what the model computes)
+        pps = w.make_parsing_state(**psdesc.to_kwargs(pr['ps'])) if pr.get('ps') else w.make_parsing_state()
+        legacy_call(w, pps, min(pr['pos'], len(c['s'])), pr['call'])
     ps = w.make_parsing_state(**psdesc.to_kwargs(c['ps'])) if c.get('ps') else w.make_parsing_state()
     pos = c['pos']
     fail = None
@@ -618,6 +653,9 @@ def cases(tier, rng):
         for c in sweep(s, 'default', rng.sample(ALL_VARIANTS, 8)):
             c['ps'] = psd
             yield c
+    # 4b. histories on one shared walker
+    for c in history_cases(tier, rng):
+        yield c
     # 5. every argument string up to length 4 through every spelling
     for a in argstrings(4):
         sps = spellings_for(a)
@@ -647,7 +685,41 @@ def cases(tier, rng):
                         yield {'tol': tol, 'ctx': 'A', 's': s, 'pos': len(pre), 'call': ['args', 'L', a, ns, mm]}
                         yield {'tol': tol, 'ctx': 'A', 's': s, 'pos': 0, 'call': ['doc', ['L', a, ns, mm]]}
 
+PS_POOL = [None, {'im': True}, {'im': True, 'md': '$'}, {'gd': [['{', '}'], ['<', '>']]}, {'en': False}, {'co': False}, {'ma': False},
+           {'gd': [['{', '}'], ['[', ']']]}, {'mm': False}]
+
+def history_cases(tier, rng):
+    """several legacy calls on one shared walker, with different parsing states and stop conditions"""
+    quick = tier == 'quick'
+    fixed = ['a [b $c$ 100% d] e <x \\x{y} z> (p) q', 'x[a $b$]y[c]', '[\\emph{a}] <b> {c}', 'a]b]c>d)e', '$a [b] c$ [d]']
+    brace_calls = [v for v in NODES_VARIANTS if v[1] is not None] + GROUP_VARIANTS[:6] + TOK_VARIANTS[3:]
+    strs = list(fixed)
+    for _ in range(80 if quick else 1500):
+        strs.append(gen.soup(rng, gen.ATOMS_DEFAULT + ['[', ']', '<', '>', '(', ')', '[', ']'], 8))
+    for s in strs:
+        for _ in range(40 if quick else 60):
+            name = rng.choice(['default', 'default', 'A'])
+            pre = []
+            for _ in range(rng.randint(1, 3)):
+                pre.append({'ps': rng.choice(PS_POOL), 'pos': rng.randint(0, len(s)),
+                            'call': rng.choice(brace_calls if rng.random() < 0.7 else ALL_VARIANTS)})
+            final = rng.choice(brace_calls if rng.random() < 0.7 else ALL_VARIANTS)
+            if rng.random() < 0.5:
+                # the same call again under another parsing state (what a per-walker memo would get wrong)
+                final = pre[-1]['call']
+            c = {'tol': rng.random() < 0.4, 'ctx': name, 's': s, 'pos': rng.randint(0, len(s)), 'call': final, 'pre': pre}
+            psd = rng.choice(PS_POOL)
+            if psd is not None:
+                c['ps'] = psd
+            yield c
+
 def shrink_candidates(c):
+    pre = c.get('pre') or []
+    for i in range(len(pre)):
+        d = dict(c); d['pre'] = pre[:i] + pre[i+1:]
+        yield d
+    if pre:
+        return
     s = c['s']
     n = len(s)
     for L in (12, 8, 5, 3, 2, 1):
